@@ -45,9 +45,10 @@ def _subst(v, sym, new):
 
 
 class FlagInt:
-    def __init__(self, F, body, on_call=None, cap=30000):
+    def __init__(self, F, body, on_call=None, cap=30000, on_edge=None):
         self.F, self.b = F, body
         self.on_call = on_call
+        self.on_edge = on_edge      # on_edge(fi, bb, symbol, adt, variant, ghost) -> new ghost | None, when a branch refines an unknown enum
         self.cap = cap
         self.capped = False
         self.obs = []        # (tag, bb, data, ghost-dict)
@@ -203,6 +204,10 @@ class FlagInt:
             if x is None and not pl["p"]:
                 x = self._fresh(vals, (bi, si, "pl"))
                 vals[pl["l"]] = x
+            elif x is None:
+                # an enum read in place (`match file.input {..}`): name it by its last field so that hooks can recognise it
+                fl = [p_ for p_ in pl["p"] if p_["k"] == "field"]
+                x = self._fresh(vals, (bi, si, "fld", (fl[-1]["name"] or str(fl[-1]["i"])) if fl else "?"))
             if x is not None and x[0] == "en":
                 d = self.F.discr(x[1], x[2]) if x[1] in self.F.adts else None
                 v = ("i", d) if d is not None else None
@@ -235,7 +240,13 @@ class FlagInt:
             elif rv["ak"] == "tuple":
                 v = ("tup", ops)
         if v is None and not s["place"]["p"]:
-            v = self._fresh(vals, (bi, si))
+            site = (bi, si)
+            if k == "use" and rv["op"]["k"] in ("copy", "move"):
+                # remember which field an unknown was loaded from (hooks recognise `file.input`, ..)
+                fl = [p_ for p_ in rv["op"]["place"]["p"] if p_["k"] == "field"]
+                if fl:
+                    site = (bi, si, "fld", fl[-1]["name"] or str(fl[-1]["i"]))
+            v = self._fresh(vals, site)
         self._set(vals, s["place"], v)
 
     def _term(self, bi, t, vals, ghost):
@@ -287,18 +298,25 @@ class FlagInt:
             _, sym, adt = d
             names = self.F.variants(adt)
             covered = set()
+            def edge_ghost(vn):
+                if self.on_edge and vn is not None:
+                    g = self.on_edge(self, bi, sym, adt, vn, ghost)
+                    if g is not None:
+                        return g
+                return ghost
+
             for v, x in arms:
                 vn = self.F.variant_of_discr(adt, v)
                 covered.add(vn)
                 v2 = dict(vals)
                 if vn is not None:
                     self._refine(v2, sym, ("en", adt, vn, None))
-                yield x, v2, ghost
+                yield x, v2, edge_ghost(vn)
             rest = [n for n in names if n not in covered]
             if len(rest) == 1:
                 v2 = dict(vals)
                 self._refine(v2, sym, ("en", adt, rest[0], None))
-                yield oth, v2, ghost
+                yield oth, v2, edge_ghost(rest[0])
             elif rest:
                 yield oth, vals, ghost
             return
